@@ -185,6 +185,23 @@ def check_chain(seq_json, cs, ctx=None):
             fails.append(("chain/input-records-changed", f"{where}: input {recs_to_json(seq_in)} now has records {sorted(map(repr, record_set(c_in)))}"))
     if any(res is c for c in convs):
         fails.append(("chain/returns-one-of-its-inputs", f"{where}: the result is an input object itself"))
+    if cs and models and not fails and models[0].records:
+        # the first converter an instance of a subclass using the documented identifier hook: the result expands what the first
+        # converter knows exactly as the first converter does
+        from ..impl import HookedConverter
+
+        hfirst = HookedConverter([to_record(r) for r in seqs[0]])
+        try:
+            hres = chain([hfirst] + [Converter([to_record(r) for r in s_]) for s_ in seqs[1:]], case_sensitive=True)
+        except ValueError:
+            hres = None
+        if hres is not None:
+            for r in models[0].records:
+                for p in r.prefixes:
+                    for i_ in ("X1", "bad", "1"):
+                        c_ = p + ":" + i_
+                        if ":" not in p and hres.expand(c_) != hfirst.expand(c_):
+                            fails.append(("chain/first-converter-does-not-win", f"{where} with the first converter a subclass overriding standardize_identifier: expand({c_!r}) = {hres.expand(c_)!r}, the first converter gives {hfirst.expand(c_)!r}"))
     if cs and models and not fails:
         # the same chain with the first converter writing CURIEs with another delimiter: the result expands and compresses
         # what the first converter knows exactly as the first converter does, and chain([c]) is equivalent to c
@@ -279,6 +296,21 @@ def check_sub(recs_json, delim_rewrite, P, ctx=None):
                 u_ = r.uri_prefix + "#7"
                 if sub2.compress(u_) != parent2.compress(u_) and parent2.parse_uri(u_, return_none=True) == sub2.parse_uri(u_, return_none=True):
                     fails.append(("sub/answers-differ-from-parent-on-kept-record", f"{where} with the parent using delimiter {d2!r}: compress({u_!r}) = {sub2.compress(u_)!r}, the parent gives {parent2.compress(u_)!r}"))
+            if fails:
+                break
+    if not fails and exp.records:
+        # a parent that is an instance of a subclass using the documented identifier hook: on the kept records the restriction
+        # answers as the parent does, the hook included
+        from ..impl import HookedConverter
+
+        hp = HookedConverter([to_record(r) for r in recs])
+        hs = hp.get_subconverter(list(P))
+        for r in exp.records:
+            for p_ in r.prefixes:
+                for i_ in ("X1", "bad", "y", "1"):
+                    c_ = p_ + ":" + i_
+                    if ":" not in p_ and hs.expand(c_) != hp.expand(c_):
+                        fails.append(("sub/answers-differ-from-parent-on-kept-record", f"{where} with the parent a subclass overriding standardize_identifier: expand({c_!r}) = {hs.expand(c_)!r}, the parent gives {hp.expand(c_)!r}"))
             if fails:
                 break
     if not fails and recs:
